@@ -18,7 +18,7 @@ Inc(x) == SExpr(Asg(x, Bin("+", Id(x), Lit(N(1)))))
 WhileLoop(L, body) ==
   SBlock(<< SVar(Cnt(L), Lit(N(0))),
             SWhile(Bin("<", Id(Cnt(L)), Lit(N(3))), SBlock(<<Inc(Cnt(L)), Tp, body, Tp>>)),
-            Tp >>)
+            Tp, SPrint(Id(Cnt(L))) >>)          \* the counter as the loop left it
 ForLoop(L, v, body) ==
   LET x == Cnt(L)  hasInit == v % 2 = 1  hasCond == (v \div 2) % 2 = 1  hasIncr == (v \div 4) % 2 = 1
       b == SBlock( (IF hasIncr THEN <<>> ELSE <<Inc(x)>>)
@@ -27,7 +27,7 @@ ForLoop(L, v, body) ==
       f == SFor(IF hasInit THEN SVar(x, Lit(N(0))) ELSE None,
                 IF hasCond THEN Bin("<", Id(x), Lit(N(3))) ELSE None,
                 IF hasIncr THEN Asg(x, Bin("+", Id(x), Lit(N(1)))) ELSE None, b)
-  IN SBlock((IF hasInit THEN <<>> ELSE <<SVar(x, Lit(N(0)))>>) \o <<f, Tp>>)
+  IN SBlock((IF hasInit THEN <<>> ELSE <<SVar(x, Lit(N(0)))>>) \o <<f, Tp>> \o (IF hasInit THEN <<>> ELSE <<SPrint(Id(x))>>))
 
 (* sequences, not sets: TLC's union of large sets of large records is quadratic *)
 Cross(A, B, F(_, _)) == FlattenSeq([i \in 1..Len(A) |-> [j \in 1..Len(B) |-> F(A[i], B[j])]])
